@@ -158,7 +158,10 @@ func writeTag(w io.Writer, tag *Tag, timestampDelta uint32) error {
 	offset += 4
 
 	// timestamp
-	timestamp := tag.Timestamp - timestampDelta
+	timestamp := uint32(0) // 早于首个 Tag 的时间戳按 0 输出，避免无符号减法回绕
+	if tag.Timestamp >= timestampDelta {
+		timestamp = tag.Timestamp - timestampDelta
+	}
 	binary.BigEndian.PutUint32(tagHeader[offset:], (timestamp<<8)|(timestamp>>24))
 	offset += 4
 
